@@ -396,7 +396,7 @@ def run(shard, rec, rng):
         _, data0 = T.encode_multipart(md0, boundary=boundary)
         off = data0.index(b'name="up"')  # inside the second part's header block
         for k64 in (1, 2):
-            pad = 1000 + (k64 * 65536 - off) + rng.randrange(-8, 40)
+            pad = 1000 + (k64 * 65536 - off) - rng.randrange(20, 110)  # the 64 KiB cut falls inside the long filename
             if pad > 0:
                 rec.observe("header_straddles_64k_cases")
                 check_parts(W, rec, plist(pad), boundary, paths=("encode_multipart",))
